@@ -156,6 +156,9 @@ func osfsExec(c *Ctx, op string) {
 	// decoys: the same names one level up and at the outer root, plus a secret outside
 	os.MkdirAll(filepath.Join(outer, "x"), 0755)
 	os.WriteFile(filepath.Join(outer, "secret"), []byte("SECRET"), 0600)
+	// a sibling whose name extends the base's own name
+	os.MkdirAll(filepath.Join(outer, "x", "base2"), 0755)
+	os.WriteFile(filepath.Join(outer, "x", "base2", "secret"), []byte("SECRET"), 0600)
 	if err := buildTree(base, ns); err != nil {
 		c.EmitR(op, "skip", "skip")
 		return
@@ -400,6 +403,88 @@ func osfsExec(c *Ctx, op string) {
 		}
 		c.H("op:" + name + ":" + fsCatOf(opErr))
 		c.EmitR(op, "skip", "skip")
+	case "reuse":
+		// one handle across a change of the tree: `osfs <tree> reuse <path> <dir> <target>` — walk <path> through the
+		// handle, then replace the directory <dir> by a symlink to <target> (its content moves to <dir>.real), then
+		// every read operation on <path> through the *same* handle must answer exactly as a fresh handle does
+		// (resolution is a function of the tree as it is now, not of what the handle saw earlier).
+		raw, dir, target := unhx(f[3]), unhx(f[4]), unhx(f[5])
+		rp, ok := tryRel(raw)
+		if !ok {
+			c.EmitR(op, "skip", "skip")
+			return
+		}
+		observe := func(h fs.FS, name string) (res string) {
+			defer func() {
+				if r := recover(); r != nil {
+					res = "panic"
+				}
+			}()
+			switch name {
+			case "stat":
+				m, e := h.Stat(rp)
+				if e != nil {
+					return "err " + fsCatOf(e)
+				}
+				return fmt.Sprintf("ok %v %d", m.Type, m.Size)
+			case "lstat":
+				m, e := h.LStat(rp)
+				if e != nil {
+					return "err " + fsCatOf(e)
+				}
+				return fmt.Sprintf("ok %v %d %s", m.Type, m.Size, m.Linkname)
+			case "open":
+				fl, e := h.OpenFile(rp, os.O_RDONLY, 0)
+				if e != nil {
+					return "err " + fsCatOf(e)
+				}
+				b, _ := io.ReadAll(io.LimitReader(fl, 100))
+				fl.Close()
+				return "ok " + string(b)
+			case "readdir":
+				ns, e := h.ReadDirNames(rp)
+				if e != nil {
+					return "err " + fsCatOf(e)
+				}
+				sort.Strings(ns)
+				return "ok " + strings.Join(ns, ",")
+			}
+			return "?"
+		}
+		names := []string{"stat", "lstat", "open", "readdir"}
+		for _, n := range names {
+			observe(afs, n) // the handle walks the tree as it is now
+		}
+		if os.Rename(filepath.Join(base, dir), filepath.Join(base, dir+".real")) != nil {
+			c.EmitR(op, "skip", "skip")
+			return
+		}
+		// the same names exist at the host-side reading of the target: an object a stale handle would reach
+		if strings.HasPrefix(raw, dir+"/") {
+			twin := filepath.Join(outer, "hostside", strings.TrimPrefix(raw, dir+"/"))
+			os.MkdirAll(filepath.Dir(twin), 0755)
+			os.WriteFile(twin, []byte("HOSTSIDE"), 0644)
+		}
+		os.Symlink(strings.ReplaceAll(target, "@OUT@", outer), filepath.Join(base, dir))
+		before, _ := Snapshot(filepath.Join(outer, "hostside"))
+		fresh := osfs.New(fs.MustAbsolutePath(base))
+		for _, n := range names {
+			a, b := observe(afs, n), observe(fresh, n)
+			if a != b {
+				c.PropFail("osfs-handle-state", fmt.Sprintf("%s on %q after %q became a symlink to %q: the handle used earlier answers %q, a fresh handle %q", n, raw, dir, target, a, b), op)
+			}
+			if strings.Contains(a, "HOSTSIDE") {
+				c.PropFail("osfs-escape-open", "a handle used earlier read an object outside the base", op)
+			}
+		}
+		// and a change through the stale handle must land inside
+		afs.Chmod(rp, 0600)
+		after, _ := Snapshot(filepath.Join(outer, "hostside"))
+		if len(changedPaths(before, after)) > 0 {
+			c.PropFail("osfs-escape", "chmod through a handle used earlier changed an object outside the base", op)
+		}
+		c.H("op:reuse")
+		c.EmitR(op, "skip", "skip")
 	}
 	c.Distinct(op)
 }
@@ -583,12 +668,37 @@ func osfsEngine(c *Ctx) {
 		}
 		// paths that leave the base, in several spellings, through every operation
 		if k < len(corpus) || k%5 == 0 {
-			for _, up := range []string{"..", "../", "./..", "a/../..", "../x", "d/../../x", "../.."} {
+			// (the base is <outer>/x/base: leaving paths whose joined form still starts with the base's own string are included)
+			for _, up := range []string{"..", "../", "./..", "a/../..", "../x", "d/../../x", "../..", "../base", "../base2", "../base2/secret", "../base.old", "a/../../base2", "../../x/base/a", "../../x/base2/secret"} {
 				osfsExec(c, fmt.Sprintf("osfs %s op %s %s", tt, ops[c.Intn(len(ops))], hx(up)))
+				if k < len(corpus) {
+					osfsExec(c, fmt.Sprintf("osfs %s realpath %d %s", tt, c.Intn(2), hx(up)))
+				}
 			}
 			if k < 2 {
 				for _, o := range ops {
 					osfsExec(c, fmt.Sprintf("osfs %s op %s %s", tt, o, hx("..")))
+				}
+			}
+		}
+		// one handle across a tree change: every directory of the tree in turn becomes a symlink (absolute = re-rooted,
+		// relative, and the absolute host path of a host-side twin)
+		if k < len(corpus) || k%4 == 0 {
+			for _, n := range ns {
+				if n.kind != 'd' || strings.Contains(n.path, "@") {
+					continue
+				}
+				var below []string
+				for _, m := range ns {
+					if strings.HasPrefix(m.path, n.path+"/") {
+						below = append(below, m.path)
+					}
+				}
+				if len(below) == 0 {
+					continue
+				}
+				for _, tg := range []string{"/" + n.path + ".real", pathpkg.Base(n.path) + ".real", "@OUT@/hostside"} {
+					osfsExec(c, fmt.Sprintf("osfs %s reuse %s %s %s", tt, hx(below[c.Intn(len(below))]), hx(n.path), hx(tg)))
 				}
 			}
 		}
